@@ -1,3 +1,5 @@
+pub mod c01;
+pub mod c02;
 pub mod c16;
 pub mod c17;
 
@@ -5,6 +7,8 @@ use crate::engine::Property;
 
 pub fn by_id(id: &str) -> Option<Box<dyn Property>> {
     Some(match id {
+        "C01" => Box::new(c01::C01),
+        "C02" => Box::new(c02::C02),
         "C16" => Box::new(c16::C16),
         "C17" => Box::new(c17::C17),
         _ => return None,
